@@ -104,4 +104,4 @@ def e_case(c):
                                                  "noise" if m.n is not None else "clean"]}
 
 
-PARTS = [Part("linear", e_case, s_case(), quick=1000, thorough=5000, shards=16, quick_shards=2, rule="see RULE")]
+PARTS = [Part("linear", e_case, s_case(), quick=1000, thorough=40000, shards=16, quick_shards=2, rule="see RULE")]
